@@ -504,7 +504,7 @@ def unit_def(unit):
         if stack == 'number':
             files.insert(0, (d + '/number.rs', None))
     elif part == 'glue':
-        files = [(d + '/mod.rs', ['fn eval_' + stack])]
+        files = [(d + '/mod.rs', None)]          # the whole module file: the wrapper and whatever helpers it calls
     elif part == 'tok':
         files = [('src/utils/superscript.rs', None), ('src/utils/deserialize_superscript_number.rs', None),
                  (d + '/token.rs', ['enum NativeFunction', 'enum Token']), (d + '/tokenizer.rs', None)]
